@@ -59,6 +59,58 @@ pub enum Op {
     New,
 }
 
+/// what the objects of a history hold (the catalog, object 1, is a dictionary in every kind)
+#[derive(Clone, Copy, Debug, PartialEq)]
+pub enum Kind {
+    /// arrays
+    Values,
+    /// stream objects (dictionary + data whose length differs from object to object and from revision to revision); every
+    /// producer states /Length directly
+    Streams,
+    /// stream objects; the REFERENCE writers state the length of every stream they write as `/Length n 0 R`, where n is
+    /// an integer object that the same revision adds: written right after the stream (table / xref-stream writer) or kept
+    /// with the other non-stream objects in the revision's object stream (object-stream writer; streams themselves are
+    /// always written plainly, ISO 32000-1 7.5.7). lopdf revisions write their streams the way lopdf does.
+    StreamsIndirectLength,
+}
+pub const KINDS: [Kind; 3] = [Kind::Values, Kind::Streams, Kind::StreamsIndirectLength];
+fn kind_name(k: Kind) -> &'static str { match k { Kind::Values => "Values", Kind::Streams => "Streams", Kind::StreamsIndirectLength => "StreamsIndirectLength" } }
+fn kind_from(s: &str) -> Kind { match s { "Streams" => Kind::Streams, "StreamsIndirectLength" => Kind::StreamsIndirectLength, _ => Kind::Values } }
+
+/// the field widths /W with which the reference writers encode the rows of their cross-reference streams (ISO 32000-1
+/// 7.5.8.2: any non-negative widths; width 0 = field absent, default type 1 / generation 0)
+#[derive(Clone, Copy, Debug, PartialEq)]
+pub enum Widths {
+    /// [1 4 2], what lopdf itself writes
+    W142,
+    /// the narrowest legal row for the section at hand: offsets in as few bytes as the largest one needs; type and third
+    /// field absent (width 0) when every row is of type 1 with generation 0, else 1 byte each (or what the largest index needs)
+    Minimal,
+    /// [1 8 2]: 64-bit offsets, as written by producers prepared for files beyond 4 GiB
+    W182,
+    /// [2 5 3]: every field one byte wider than lopdf writes it
+    W253,
+}
+pub const WIDTHS: [Widths; 4] = [Widths::W142, Widths::Minimal, Widths::W182, Widths::W253];
+fn widths_name(w: Widths) -> &'static str { match w { Widths::W142 => "W142", Widths::Minimal => "Minimal", Widths::W182 => "W182", Widths::W253 => "W253" } }
+fn widths_from(s: &str) -> Widths { match s { "Minimal" => Widths::Minimal, "W182" => Widths::W182, "W253" => Widths::W253, _ => Widths::W142 } }
+fn resolve_widths(w: Widths, rows: &BTreeMap<u32, (u8, u64, u64)>) -> [usize; 3] {
+    let need = |v: u64| { let mut n = 1; while n < 8 && (v >> (8 * n)) != 0 { n += 1; } n };
+    match w {
+        Widths::W142 => [1, 4, 2],
+        Widths::W182 => [1, 8, 2],
+        Widths::W253 => [2, 5, 3],
+        Widths::Minimal => {
+            let all1 = rows.values().all(|r| r.0 == 1);
+            let a = need(rows.values().map(|r| r.1).max().unwrap_or(0));
+            let m3 = rows.values().map(|r| r.2).max().unwrap_or(0);
+            [if all1 { 0 } else { 1 }, a, if all1 && m3 == 0 { 0 } else { need(m3) }]
+        }
+    }
+}
+/// big-endian field of `w` bytes
+fn be(v: u64, w: usize) -> Vec<u8> { (0..w).map(|i| { let sh = 8 * (w - 1 - i); if sh >= 64 { 0 } else { (v >> sh) as u8 } }).collect() }
+
 /// the object numbers defined anywhere in the file as plain indirect objects (`N 0 obj` at the start of a token), found
 /// by a byte scan that knows nothing about cross-reference sections
 fn numbers_defined(file: &[u8]) -> std::collections::BTreeSet<u32> {
@@ -95,8 +147,12 @@ fn form_from(s: &str) -> TableForm { match s { "Runs" => TableForm::Runs, "FreeH
 /// the body and the cross-reference section of one revision, written by the reference writer
 #[derive(Clone, Debug)]
 struct Plan {
-    /// new or replaced objects
+    /// new or replaced objects, in the order they are written (an indirect stream length follows its stream)
     objs: Vec<(u32, Object)>,
+    /// stream number -> number of the integer object (also in `objs`) that holds its length, for streams written with `/Length n 0 R`
+    len_of: BTreeMap<u32, u32>,
+    /// field widths of the cross-reference stream (where the style has one)
+    widths: Widths,
     /// numbers of the object stream and of the cross-reference stream (where the style has them, else 0)
     container: u32,
     xid: u32,
@@ -116,18 +172,27 @@ fn render_revision(at: usize, p: &Plan, root: u32, prev: Option<usize>, pad_prev
     let mut out: Vec<u8> = vec![];
     let objs = &p.objs;
     let mut offsets: BTreeMap<u32, (u8, u64, u64)> = BTreeMap::new(); // id -> (type, f2, f3)
-    let in_objstm = p.style == Style::ObjStm && !objs.is_empty();
-    if !in_objstm {
-        for (id, o) in objs {
-            offsets.insert(*id, (1, (at + out.len()) as u64, 0));
-            out.extend_from_slice(format!("{} 0 obj\n", id).as_bytes());
-            ser(o, &mut out);
-            out.extend_from_slice(b"\nendobj\n");
+    // streams are never members of an object stream; in the object-stream style every other object is
+    let is_member = |o: &Object| p.style == Style::ObjStm && !matches!(o, Object::Stream(_));
+    for (id, o) in objs.iter().filter(|(_, o)| !is_member(o)) {
+        offsets.insert(*id, (1, (at + out.len()) as u64, 0));
+        out.extend_from_slice(format!("{} 0 obj\n", id).as_bytes());
+        match (o, p.len_of.get(id)) {
+            (Object::Stream(st), Some(l)) => {
+                let mut d = st.dict.clone();
+                d.set("Length", Object::Reference((*l, 0)));
+                ser(&Object::Dictionary(d), &mut out);
+                out.extend_from_slice(b"\nstream\n"); out.extend_from_slice(&st.content); out.extend_from_slice(b"\nendstream");
+            }
+            _ => ser(o, &mut out),
         }
-    } else {
+        out.extend_from_slice(b"\nendobj\n");
+    }
+    let members: Vec<&(u32, Object)> = objs.iter().filter(|(_, o)| is_member(o)).collect();
+    if !members.is_empty() {
         let mut index = Vec::new();
         let mut body = Vec::new();
-        for (k, (id, o)) in objs.iter().enumerate() {
+        for (k, (id, o)) in members.iter().enumerate() {
             index.extend_from_slice(format!("{} {} ", id, body.len()).as_bytes());
             ser(o, &mut body);
             body.push(b'\n');
@@ -136,7 +201,7 @@ fn render_revision(at: usize, p: &Plan, root: u32, prev: Option<usize>, pad_prev
         let mut content = index.clone();
         content.extend_from_slice(&body);
         offsets.insert(p.container, (1, (at + out.len()) as u64, 0));
-        out.extend_from_slice(format!("{} 0 obj\n<</Type /ObjStm /N {} /First {} /Length {}>>\nstream\n", p.container, objs.len(), index.len(), content.len()).as_bytes());
+        out.extend_from_slice(format!("{} 0 obj\n<</Type /ObjStm /N {} /First {} /Length {}>>\nstream\n", p.container, members.len(), index.len(), content.len()).as_bytes());
         out.extend_from_slice(&content);
         out.extend_from_slice(b"\nendstream\nendobj\n");
     }
@@ -175,8 +240,9 @@ fn render_revision(at: usize, p: &Plan, root: u32, prev: Option<usize>, pad_prev
             offsets.insert(p.xid, (1, xref_pos as u64, 0));
             let mut rows = Vec::new();
             let mut index = String::new();
-            for (id, (t, a, b)) in &offsets { index.push_str(&format!("{} 1 ", id)); rows.push(*t); rows.extend_from_slice(&(*a as u32).to_be_bytes()); rows.extend_from_slice(&(*b as u16).to_be_bytes()); }
-            out.extend_from_slice(format!("{} 0 obj\n<</Type /XRef /Size {} /Root {} 0 R{} /W [1 4 2] /Index [{}] /Length {}>>\nstream\n", p.xid, p.size, root, prev_txt, index.trim(), rows.len()).as_bytes());
+            let w = resolve_widths(p.widths, &offsets);
+            for (id, (t, a, b)) in &offsets { index.push_str(&format!("{} 1 ", id)); rows.extend(be(*t as u64, w[0])); rows.extend(be(*a, w[1])); rows.extend(be(*b, w[2])); }
+            out.extend_from_slice(format!("{} 0 obj\n<</Type /XRef /Size {} /Root {} 0 R{} /W [{} {} {}] /Index [{}] /Length {}>>\nstream\n", p.xid, p.size, root, prev_txt, w[0], w[1], w[2], index.trim(), rows.len()).as_bytes());
             out.extend_from_slice(&rows);
             out.extend_from_slice(b"\nendstream\nendobj\n");
         }
@@ -193,39 +259,54 @@ fn append_revision(file: &mut Vec<u8>, p: &Plan, root: u32, prev: usize) -> usiz
     xref_pos
 }
 
+/// give every stream of `objs` an integer object holding its length, placed right after it (numbers from `fresh`)
+fn with_lengths(objs: Vec<(u32, Object)>, kind: Kind, mut fresh: impl FnMut() -> u32) -> (Vec<(u32, Object)>, BTreeMap<u32, u32>) {
+    let mut out = vec![];
+    let mut len_of = BTreeMap::new();
+    for (id, o) in objs {
+        let n = match &o { Object::Stream(st) if kind == Kind::StreamsIndirectLength => Some(st.content.len() as i64), _ => None };
+        out.push((id, o));
+        if let Some(n) = n { let l = fresh(); len_of.insert(id, l); out.push((l, Object::Integer(n))); }
+    }
+    (out, len_of)
+}
+
 /// what the reference writer writes for update set `up` as revision `rev` + 1 when the numbers in `used` are taken:
-/// the objects, and the numbers of its object stream / cross-reference stream
-fn plan_ref(up: &[Op], rev: usize, used: &BTreeSet<u32>, low_numbers: bool, style: Style, form: TableForm) -> Plan {
+/// the objects (with the length objects of its streams in kind StreamsIndirectLength), and the numbers of its object
+/// stream / cross-reference stream
+fn plan_ref(up: &[Op], rev: usize, used: &BTreeSet<u32>, low_numbers: bool, style: Style, form: TableForm, kind: Kind, widths: Widths) -> Plan {
     let mut used = used.clone();
     let mut objs: Vec<(u32, Object)> = vec![];
     let mut hi = used.iter().max().copied().unwrap_or(0);
     for (k, op) in up.iter().enumerate() {
         match op {
-            Op::Replace(id) | Op::At(id) => objs.push((*id, payload(*id, rev + 1, 1))),
-            Op::New => { hi += 1; used.insert(hi); objs.push((hi, payload_new(rev + 1, k))); }
+            Op::Replace(id) | Op::At(id) => objs.push((*id, payload(*id, rev + 1, 1, kind))),
+            Op::New => { hi += 1; used.insert(hi); objs.push((hi, payload_new(rev + 1, k, kind))); }
         }
     }
     used.extend(objs.iter().map(|(i, _)| *i));
     hi = used.iter().max().copied().unwrap_or(0);
-    // numbers for the object stream and the cross-reference stream
-    let mut book = vec![];
-    if low_numbers {
-        let mut n = 1;
-        while book.len() < 2 { if !used.contains(&n) { book.push(n); used.insert(n); } n += 1; }
-    } else {
-        let b = (50 + 2 * rev as u32).max(hi + 1);   // fresh, above every number used so far
-        book = vec![b, b + 1];
-    }
-    let (container, xid) = match style { Style::Table => (0, 0), Style::XStream => (0, book[0]), Style::ObjStm if objs.is_empty() => (0, book[0]), Style::ObjStm => (book[0], book[1]) };
-    let size = hi.max(container).max(xid) + 1;
-    Plan { objs, container, xid, size, style, form }
+    // numbers for the object stream and the cross-reference stream, then for the length objects
+    let mut next_low = 1;
+    let mut next_fresh = (50 + 2 * rev as u32).max(hi + 1);   // fresh, above every number used so far
+    let mut take = |used: &mut BTreeSet<u32>| -> u32 {
+        if low_numbers { while used.contains(&next_low) { next_low += 1; } used.insert(next_low); next_low }
+        else { let b = next_fresh; next_fresh += 1; used.insert(b); b }
+    };
+    let book = [take(&mut used), take(&mut used)];
+    let (objs, len_of) = with_lengths(objs, kind, || take(&mut used));
+    let has_members = objs.iter().any(|(_, o)| !matches!(o, Object::Stream(_)));
+    let (container, xid) = match style { Style::Table => (0, 0), Style::XStream => (0, book[0]), Style::ObjStm if !has_members => (0, book[0]), Style::ObjStm => (book[0], book[1]) };
+    let top = objs.iter().map(|(i, _)| *i).max().unwrap_or(0);
+    let size = hi.max(top).max(container).max(xid) + 1;
+    Plan { objs, len_of, widths, container, xid, size, style, form }
 }
 
-fn base_doc(n: u32) -> (Document, BTreeMap<u32, Object>) {
+fn base_doc(n: u32, kind: Kind) -> (Document, BTreeMap<u32, Object>) {
     let mut model = BTreeMap::new();
     let mut d = Document::with_version("1.5");
     for id in 1..=n {
-        let o = if id == 1 { Object::Dictionary(dict(vec![(b"Type", name(b"Catalog")), (b"V", Object::Integer(0))])) } else { Object::Array(vec![Object::Integer(id as i64), name(b"rev0")]) };
+        let o = payload(id, 0, 0, kind);
         d.objects.insert((id, 0), o.clone());
         model.insert(id, o);
     }
@@ -245,13 +326,40 @@ fn updates() -> Vec<Vec<Op>> {
         vec![],
     ]
 }
-fn payload(id: u32, rev: usize, tag: u8) -> Object {
-    if id == 1 { Object::Dictionary(dict(vec![(b"Type", name(b"Catalog")), (b"V", Object::Integer(rev as i64))])) }
-    else { Object::Array(vec![Object::Integer(id as i64), Object::Name(format!("rev{}t{}", rev, tag).into_bytes())]) }
+/// a stream object whose data names its origin; the length of the data depends on `salt` (so that a length taken
+/// from another revision or another object cannot fit by accident)
+fn stream_payload(label: Object, tag: String, salt: usize) -> Object {
+    let data = format!("BT ({}) Tj\n{}ET", tag, "0 -12 Td (more) Tj\n".repeat(salt % 4));
+    Object::Stream(lopdf::Stream::new(dict(vec![(b"Of", label), (b"Rev", Object::Name(tag.into_bytes()))]), data.into_bytes()))
+}
+/// what revision `rev` (0 = the base) writes as object `id`
+fn payload(id: u32, rev: usize, tag: u8, kind: Kind) -> Object {
+    if id == 1 { return Object::Dictionary(dict(vec![(b"Type", name(b"Catalog")), (b"V", Object::Integer(rev as i64))])); }
+    let t = if rev == 0 { "rev0".to_string() } else { format!("rev{}t{}", rev, tag) };
+    match kind {
+        Kind::Values => Object::Array(vec![Object::Integer(id as i64), Object::Name(t.into_bytes())]),
+        _ => stream_payload(Object::Integer(id as i64), t, id as usize + rev),
+    }
 }
 /// content of the k-th edit of revision `rev` when it is an allocated addition (cannot mention its number: the producer picks it)
-fn payload_new(rev: usize, k: usize) -> Object {
-    Object::Array(vec![name(b"added"), Object::Name(format!("rev{}k{}", rev, k).into_bytes())])
+fn payload_new(rev: usize, k: usize, kind: Kind) -> Object {
+    let t = format!("rev{}k{}", rev, k);
+    match kind {
+        Kind::Values => Object::Array(vec![name(b"added"), Object::Name(t.into_bytes())]),
+        _ => stream_payload(name(b"added"), t, rev + 2 * k + 1),
+    }
+}
+
+/// value equality as the property needs it: a stream is its dictionary (but for /Length, which only says where the data
+/// ends and may be given directly or indirectly) and its data
+fn same(want: &Object, got: &Object) -> bool {
+    match (want, got) {
+        (Object::Stream(a), Object::Stream(b)) => dict_eq(&a.dict, &b.dict, &[b"Length"]) && a.content == b.content,
+        _ => obj_eq(want, got),
+    }
+}
+fn show(o: &Object) -> String {
+    match o { Object::Stream(s) => format!("stream {:?} with {} bytes of data {:?}", s.dict, s.content.len(), String::from_utf8_lossy(&s.content)), _ => format!("{:?}", o) }
 }
 
 fn check_model(file: &[u8], model: &BTreeMap<u32, Object>, what: &str) -> Result<Document, (String, String)> {
@@ -259,7 +367,7 @@ fn check_model(file: &[u8], model: &BTreeMap<u32, Object>, what: &str) -> Result
     for (id, want) in model {
         match doc.objects.get(&(*id, 0)) {
             None => { if std::env::var("C07_DUMP").is_ok() { let _ = std::fs::write("/tmp/c07_dump.pdf", file); } return Err(("latest-wins".into(), format!("{}: object {} is missing", what, id))) },
-            Some(got) => if !obj_eq(want, got) { return Err(("latest-wins".into(), format!("{}: object {} should be {:?} (most recent revision), loaded {:?}", what, id, want, got))); }
+            Some(got) => if !same(want, got) { if std::env::var("C07_DUMP").is_ok() { let _ = std::fs::write("/tmp/c07_dump.pdf", file); } return Err(("latest-wins".into(), format!("{}: object {} should be {} (most recent revision), loaded {}", what, id, show(want), show(got)))); }
         }
     }
     Ok(doc)
@@ -276,8 +384,16 @@ fn check_model(file: &[u8], model: &BTreeMap<u32, Object>, what: &str) -> Result
 /// `perm` (a permutation of 0..perm.len(), 0 = the base), each section chained by /Prev to its predecessor in revision
 /// order wherever that one lies (so /Prev may point forward in the file, as in every linearized file), one startxref
 /// at the end pointing to the section of the newest placed revision; the remaining revisions are appended as usual.
-pub fn check_history(base_stream: bool, base_n: u32, producers: &[Producer], seq: &[usize], open_try_into: bool, low_numbers: bool, form: TableForm, layout: Option<&[usize]>) -> Result<(), (String, String)> {
-    let (mut d, mut model) = base_doc(base_n);
+/// `kind`: what the objects hold (arrays | streams | streams whose reference-written /Length is indirect).
+/// `widths`: the /W of the cross-reference streams the reference writers write.
+pub fn check_history(base_stream: bool, base_n: u32, producers: &[Producer], seq: &[usize], open_try_into: bool, low_numbers: bool, form: TableForm, layout: Option<&[usize]>, kind: Kind, widths: Widths) -> Result<(), (String, String)> {
+    let (mut d, mut model) = base_doc(base_n, kind);
+    let how = |style: Style| -> String {
+        let mut t = String::new();
+        match kind { Kind::Values => {}, Kind::Streams => t.push_str(", objects are streams with direct /Length"), Kind::StreamsIndirectLength => t.push_str(&format!(", objects are streams with /Length n 0 R, n an integer object of the same revision stored {}", if style == Style::ObjStm { "in its object stream" } else { "plainly after the stream" })) }
+        if style != Style::Table && widths != Widths::W142 { t.push_str(&format!(", cross-reference stream rows in /W {}", match widths { Widths::Minimal => "as narrow as the section allows (e.g. [0 2 0] / [1 2 1])", Widths::W182 => "[1 8 2]", Widths::W253 => "[2 5 3]", Widths::W142 => "[1 4 2]" })); }
+        t
+    };
     let ups = updates();
     let mut defined_in: BTreeMap<u32, usize> = model.keys().map(|k| (*k, 0usize)).collect(); // number -> revision that last defined it
     let mut file = vec![];
@@ -296,23 +412,36 @@ pub fn check_history(base_stream: bool, base_n: u32, producers: &[Producer], seq
             placed = n - 1;
             // the plans, in revision order
             let mut used: BTreeSet<u32> = model.keys().copied().collect();
-            let bxid = if base_stream { base_n + 1 } else { 0 };
+            // the base: its objects, the length objects of its streams, then its cross-reference stream
+            let mut next = base_n;
+            let (bobjs, blen) = with_lengths(model.iter().map(|(k, v)| (*k, v.clone())).collect(), kind, || { next += 1; next });
+            let bxid = if base_stream { next + 1 } else { 0 };
+            for (id, o) in &bobjs { model.insert(*id, o.clone()); defined_in.insert(*id, 0); }
+            used.extend(bobjs.iter().map(|(i, _)| *i));
             if base_stream { used.insert(bxid); }
-            let mut plans = vec![Plan { objs: model.iter().map(|(k, v)| (*k, v.clone())).collect(), container: 0, xid: bxid, size: base_n.max(bxid) + 1, style: if base_stream { Style::XStream } else { Style::Table }, form: TableForm::FreeHead }];
+            let mut plans = vec![Plan { objs: bobjs, len_of: blen, widths, container: 0, xid: bxid, size: next.max(bxid) + 1, style: if base_stream { Style::XStream } else { Style::Table }, form: TableForm::FreeHead }];
             for rev in 0..placed {
                 let style = match producers.get(rev) { Some(Producer::Ref(s)) => *s, other => return Err(("domain".into(), format!("revision {} of the placed head must be written by the reference writer, not {:?}", rev + 1, other))) };
-                let plan = plan_ref(&ups[seq[rev] % ups.len()], rev, &used, low_numbers, style, form);
+                let plan = plan_ref(&ups[seq[rev] % ups.len()], rev, &used, low_numbers, style, form, kind, widths);
                 used.extend(plan.objs.iter().map(|(i, _)| *i));
                 used.extend([plan.container, plan.xid].iter().filter(|x| **x != 0));
                 for (id, o) in &plan.objs { model.insert(*id, o.clone()); defined_in.insert(*id, rev + 1); }
                 plans.push(plan);
             }
-            // block lengths do not depend on the position (offsets and /Prev have a fixed width): lay the blocks out in physical order
-            let lens: Vec<usize> = plans.iter().enumerate().map(|(i, p)| render_revision(0, p, 1, if i > 0 { Some(0) } else { None }, true).0.len()).collect();
-            file.extend_from_slice(b"%PDF-1.5\n");
+            // the length of a block depends on its position only through the width of the narrowest offset field (offsets
+            // in tables and /Prev have a fixed width): lay the blocks out in physical order until the positions are stable
+            let header = b"%PDF-1.5\n".len();
             let mut at = vec![0usize; n];
-            let mut pos = file.len();
-            for &i in perm { at[i] = pos; pos += lens[i]; }
+            let mut lens: Vec<usize> = vec![0; n];
+            for _round in 0..8 {
+                lens = plans.iter().enumerate().map(|(i, p)| render_revision(at[i], p, 1, if i > 0 { Some(0) } else { None }, true).0.len()).collect();
+                let mut pos = header;
+                let mut next_at = vec![0usize; n];
+                for &i in perm { next_at[i] = pos; pos += lens[i]; }
+                if next_at == at { break; }
+                at = next_at;
+            }
+            file.extend_from_slice(b"%PDF-1.5\n");
             let mut sections = vec![0usize; n];
             let mut blocks: Vec<Vec<u8>> = vec![];
             for i in 0..n {
@@ -324,14 +453,14 @@ pub fn check_history(base_stream: bool, base_n: u32, producers: &[Producer], seq
             for &i in perm { file.extend_from_slice(&blocks[i]); }
             file.extend_from_slice(format!("startxref\n{}\n%%EOF", sections[n - 1]).as_bytes());
             let forward: Vec<String> = (1..n).filter(|i| sections[i - 1] > sections[*i]).map(|i| format!("revision {} at {} -> /Prev {}", i, sections[i], sections[i - 1])).collect();
-            let what = format!("reference-written file holding the base and revisions 1..{} ({:?}) in the physical order {:?} (0 = base): cross-reference sections of revisions 0..{} at {:?}, startxref {}, /Prev pointing forward in the file: {}", placed, &producers[..placed], perm, placed, sections, sections[n - 1], if forward.is_empty() { "none".to_string() } else { forward.join(", ") });
+            let what = format!("reference-written file holding the base and revisions 1..{} ({:?}) in the physical order {:?} (0 = base){}: cross-reference sections of revisions 0..{} at {:?}, startxref {}, /Prev pointing forward in the file: {}", placed, &producers[..placed], perm, how(if producers[..placed].contains(&Producer::Ref(Style::ObjStm)) { Style::ObjStm } else if base_stream { Style::XStream } else { Style::Table }), placed, sections, sections[n - 1], if forward.is_empty() { "none".to_string() } else { forward.join(", ") });
             prev_doc = check_model(&file, &model, &what)?;
         }
     }
     for (rev, u) in seq.iter().enumerate().skip(placed) {
         let up = &ups[*u % ups.len()];
         let producer = producers.get(rev).copied().unwrap_or(Producer::Lopdf);
-        let what = format!("revision {} ({:?})", rev + 1, producer);
+        let what = format!("revision {} ({:?}{})", rev + 1, producer, match producer { Producer::Ref(style) => how(style), Producer::Lopdf => if kind == Kind::Values { String::new() } else { ", objects are streams".to_string() } });
         let mut objs: Vec<(u32, Object)> = vec![];
         match producer {
             Producer::Lopdf => {
@@ -347,13 +476,13 @@ pub fn check_history(base_stream: bool, base_n: u32, producers: &[Producer], seq
                 for (k, op) in up.iter().enumerate() {
                     match op {
                         Op::Replace(id) | Op::At(id) => {
-                            let o = payload(*id, rev + 1, 1);
+                            let o = payload(*id, rev + 1, 1, kind);
                             inc.new_document.objects.insert((*id, 0), o.clone());
                             inc.new_document.max_id = inc.new_document.max_id.max(*id);
                             objs.push((*id, o));
                         }
                         Op::New => {
-                            let o = payload_new(rev + 1, k);
+                            let o = payload_new(rev + 1, k, kind);
                             let got = match guarded(|| inc.new_document.add_object(o.clone())) { Ok(id) => id, Err(p) => return Err(("incremental-save".into(), format!("{}: new_document.add_object panicked: {}", what, p))) };
                             // an ADDED object must not take the number of an object that an earlier revision (or this one) defines:
                             // otherwise that untouched object no longer comes from its revision
@@ -379,7 +508,7 @@ pub fn check_history(base_stream: bool, base_n: u32, producers: &[Producer], seq
                 // every number in use so far: the model plus whatever bookkeeping objects earlier producers wrote (byte scan)
                 let mut used = numbers_defined(&file);
                 used.extend(model.keys().copied());
-                let plan = plan_ref(up, rev, &used, low_numbers, style, form);
+                let plan = plan_ref(up, rev, &used, low_numbers, style, form, kind, widths);
                 for (id, o) in &plan.objs { model.insert(*id, o.clone()); defined_in.insert(*id, rev + 1); }
                 let prev = prev_doc.xref_start;
                 append_revision(&mut file, &plan, 1, prev);
@@ -412,14 +541,14 @@ fn permutations(n: usize) -> Vec<Vec<usize>> {
 }
 
 #[derive(Clone, Debug)]
-struct Case { base_stream: bool, prods: Vec<Producer>, seq: Vec<usize>, open_try_into: bool, low_numbers: bool, form: TableForm, layout: Option<Vec<usize>> }
+struct Case { base_stream: bool, prods: Vec<Producer>, seq: Vec<usize>, open_try_into: bool, low_numbers: bool, form: TableForm, layout: Option<Vec<usize>>, kind: Kind, widths: Widths }
 fn case_json(c: &Case) -> Value {
     let names: Vec<&str> = c.prods.iter().map(producer_name).collect();
-    json!({"base_stream": c.base_stream, "producers": names, "seq": c.seq, "open_try_into": c.open_try_into, "low_numbers": c.low_numbers, "table_form": form_name(c.form), "layout": c.layout})
+    json!({"base_stream": c.base_stream, "producers": names, "seq": c.seq, "open_try_into": c.open_try_into, "low_numbers": c.low_numbers, "table_form": form_name(c.form), "layout": c.layout, "kind": kind_name(c.kind), "widths": widths_name(c.widths)})
 }
 
 pub fn run(thorough: bool) -> Report {
-    let mut rep = Report::new("base documents of 3 objects (table / xref-stream) x histories of 1..2 (thorough: 3) revisions over 9 update sets (6 replacing / adding under caller-chosen numbers 40..42, 2 adding 1..2 objects whose number the PRODUCER allocates: lopdf by new_document.add_object(), the reference writer highest+1, 1 EMPTY: the revision changes no object and only appends a cross-reference section + trailer - reference table writer: `xref 0 0 trailer`, reference stream writers: an XRef stream listing only itself) x a producer PER REVISION (table base: reference table writer | lopdf IncrementalDocument; xref-stream base: reference xref-stream writer | reference object-stream writer | lopdf IncrementalDocument; all mixed sequences) x {lopdf revisions opened by create_from(bytes, load_mem(bytes)) | by TryInto<IncrementalDocument> for &[u8]} (when a lopdf revision occurs) x {reference ObjStm/XRef objects numbered above everything | with the lowest unused numbers, so the newest section need not hold the highest number} (thorough only, when a reference stream revision occurs) x subsection structure of the reference TABLE writer {one subsection per entry | one per maximal run of consecutive numbers | free head `0 1` + runs | zero-count head `0 0` + runs} (when a reference table revision occurs) x PLACEMENT of the revisions in the file {base saved by lopdf, every revision appended after the previous one | base (FreeHead table / XRef stream) and the maximal leading run of j reference-written revisions written by the reference writer in EVERY physical order (all (j+1)! permutations, identity included; /Prev always chains in revision order, so it points forward in the file whenever a revision lies before its predecessor - the layout of linearized files; fixed-width /Prev, one startxref at the end naming the newest placed section), remaining revisions appended by their producers}; /Size exact; reload after every appended revision and after the placed head; an allocated number must not be one an earlier revision defines", true);
+    let mut rep = Report::new("base documents of 3 objects (table / xref-stream) x histories of 1..2 (thorough: 3) revisions over 9 update sets (6 replacing / adding under caller-chosen numbers 40..42, 2 adding 1..2 objects whose number the PRODUCER allocates: lopdf by new_document.add_object(), the reference writer highest+1, 1 EMPTY: the revision changes no object and only appends a cross-reference section + trailer - reference table writer: `xref 0 0 trailer`, reference stream writers: an XRef stream listing only itself) x a producer PER REVISION (table base: reference table writer | lopdf IncrementalDocument; xref-stream base: reference xref-stream writer | reference object-stream writer | lopdf IncrementalDocument; all mixed sequences) x {lopdf revisions opened by create_from(bytes, load_mem(bytes)) | by TryInto<IncrementalDocument> for &[u8]} (when a lopdf revision occurs) x {reference ObjStm/XRef objects numbered above everything | with the lowest unused numbers, so the newest section need not hold the highest number} (thorough only, when a reference stream revision occurs) x subsection structure of the reference TABLE writer {one subsection per entry | one per maximal run of consecutive numbers | free head `0 1` + runs | zero-count head `0 0` + runs} (when a reference table revision occurs) x PLACEMENT of the revisions in the file {base saved by lopdf, every revision appended after the previous one | base (FreeHead table / XRef stream) and the maximal leading run of j reference-written revisions written by the reference writer in EVERY physical order (all (j+1)! permutations, identity included; /Prev always chains in revision order, so it points forward in the file whenever a revision lies before its predecessor - the layout of linearized files; fixed-width /Prev, positions iterated to a fixed point where the narrowest /W makes a block length depend on its position, one startxref at the end naming the newest placed section), remaining revisions appended by their producers} x WHAT THE OBJECTS HOLD {arrays | stream objects (dictionary + data of 15..74 bytes whose length differs between objects and revisions; base objects 2..3, every replaced and every added object; the catalog stays a dictionary), /Length direct | the same streams, every stream written by a REFERENCE writer (base included when placed) with `/Length n 0 R`, n an integer object added by the same revision: written plainly right after the stream (table / xref-stream writer) or kept in the revision's object stream with its other non-stream objects while the streams themselves are written plainly (object-stream writer); length objects are numbered like the ObjStm/XRef objects and are part of the expected document; lopdf revisions write streams as lopdf does; skipped when no reference writer takes part} x FIELD WIDTHS /W of every cross-reference stream the reference writers write (when there is one) {[1 4 2] as lopdf writes | the narrowest legal rows: offsets in as few bytes as the section's largest needs, type and third field of width 0 when all rows are type 1 / generation 0, i.e. [0 2 0] for the xref-stream writer, [1 2 1] with an object stream | [1 8 2] (64-bit offsets) | [2 5 3]}; these two dimensions in full product with all the others for histories of 1..2 revisions, for histories of 3 revisions (thorough) with placement = appended, create_from, fresh numbers, one subsection per entry; streams compare by dictionary without /Length and by data; /Size exact; reload after every appended revision and after the placed head; an allocated number must not be one an earlier revision defines", true);
     let maxlen = if thorough { 3 } else { 2 };
     let mut seqs: Vec<Vec<usize>> = vec![];
     for a in 0..N_UPDATES { seqs.push(vec![a]); for b in 0..N_UPDATES { seqs.push(vec![a, b]); if maxlen >= 3 { for c in 0..N_UPDATES { seqs.push(vec![a, b, c]); } } } }
@@ -449,7 +578,21 @@ pub fn run(thorough: bool) -> Report {
                             if low_numbers && !(has_ref_stream && thorough) { continue; }
                             for form in FORMS {
                                 if form != TableForm::Singletons && !has_ref_table { continue; }
-                                cases.push(Case { base_stream, prods: prods.clone(), seq: seq.clone(), open_try_into, low_numbers, form, layout: layout.clone() });
+                                // the two newest dimensions: in full for histories of 1..2 revisions; for 3 revisions with the other
+                                // choices at their first value (appended, create_from, fresh numbers, one subsection per entry)
+                                let full = seq.len() <= 2 || (layout.is_none() && !open_try_into && !low_numbers && form == TableForm::Singletons);
+                                // a cross-reference stream by the reference writer: a revision of it, or the placed base
+                                let ref_xstream = has_ref_stream || (base_stream && layout.is_some());
+                                let any_ref = lead > 0 || prods.iter().any(|p| matches!(p, Producer::Ref(_))) || layout.is_some();
+                                for kind in KINDS {
+                                    if kind == Kind::StreamsIndirectLength && !any_ref { continue; }   // without a reference writer: same as Streams
+                                    for widths in WIDTHS {
+                                        let first = kind == Kind::Values && widths == Widths::W142;
+                                        if !first && !full { continue; }
+                                        if widths != Widths::W142 && !ref_xstream { continue; }
+                                        cases.push(Case { base_stream, prods: prods.clone(), seq: seq.clone(), open_try_into, low_numbers, form, layout: layout.clone(), kind, widths });
+                                    }
+                                }
                             }
                         }
                     }
@@ -457,13 +600,13 @@ pub fn run(thorough: bool) -> Report {
             }
         }
     }
-    let results: Vec<Option<(String, String)>> = quiet(|| cases.par_iter().map(|c| check_history(c.base_stream, 3, &c.prods, &c.seq, c.open_try_into, c.low_numbers, c.form, c.layout.as_deref()).err()).collect());
+    let results: Vec<Option<(String, String)>> = quiet(|| cases.par_iter().map(|c| check_history(c.base_stream, 3, &c.prods, &c.seq, c.open_try_into, c.low_numbers, c.form, c.layout.as_deref(), c.kind, c.widths).err()).collect());
     for (c, r) in cases.iter().zip(results) {
         rep.case(true);
         if let Some((o, d)) = r { rep.fail(&o, d.clone(), case_json(c), d); }
     }
     rep.sample("base(table,3 objects) ; rev1 replaces 2 ; rev2 replaces 3,2".into());
-    rep.sample("base(table,3 objects) ; rev1 by lopdf replaces 2 ; rev2 by lopdf (opened with TryInto) adds one object through add_object()".into());
+    rep.sample("base(xref stream,3 objects: catalog + 2 streams) ; rev1 by the reference object-stream writer replaces stream 2, written plainly with /Length 52 0 R, integer 52 inside ObjStm 50, XRef stream 51 with /W [1 2 1] ; rev2 by lopdf adds a stream through add_object()".into());
     rep.sample("base(xref stream,3 objects) ; rev1 by the reference object-stream writer adds object 40, ObjStm = 4, XRef = 5 ; rev2 by lopdf replaces 2 and adds two allocated objects".into());
     rep.sample("reference-written file in physical order [rev2, base, rev1] (startxref -> rev2 near the start -> /Prev forward to rev1 at the end -> /Prev back to the base) ; rev1 = table `0 0` + `2 1` replacing 2 ; rev2 changes no object (`xref 0 0 trailer`) ; rev3 appended by lopdf".into());
     rep
@@ -479,8 +622,8 @@ pub fn replay(v: &Value) -> Result<(), String> {
             vec![p; seq.len()]
         }
     };
-    // records written before these dimensions existed: one subsection per entry, everything appended
+    // records written before these dimensions existed: one subsection per entry, everything appended, arrays, /W [1 4 2]
     let form = form_from(v["table_form"].as_str().unwrap_or("Singletons"));
     let layout: Option<Vec<usize>> = v["layout"].as_array().map(|a| a.iter().map(|x| x.as_u64().unwrap_or(0) as usize).collect());
-    quiet(|| check_history(v["base_stream"].as_bool().unwrap_or(false), 3, &prods, &seq, v["open_try_into"].as_bool().unwrap_or(false), v["low_numbers"].as_bool().unwrap_or(false), form, layout.as_deref())).map_err(|e| format!("{}: {}", e.0, e.1))
+    quiet(|| check_history(v["base_stream"].as_bool().unwrap_or(false), 3, &prods, &seq, v["open_try_into"].as_bool().unwrap_or(false), v["low_numbers"].as_bool().unwrap_or(false), form, layout.as_deref(), kind_from(v["kind"].as_str().unwrap_or("Values")), widths_from(v["widths"].as_str().unwrap_or("W142")))).map_err(|e| format!("{}: {}", e.0, e.1))
 }
